@@ -16,15 +16,15 @@ Fixpoint reloadable (n : node) : bool :=
   let all := (fix go (l : list (string * node)) : bool :=
                 match l with [] => true | kv :: r => match kv with (_, v) => reloadable v && go r end end) in
   match n with
-  | NPrior _ fam _ _ _ _ => negb (is_log_gaussian fam)
+  | NPrior _ fam _ _ _ _ => negb (is_log_gaussian fam) || log_gaussian_dict
   | NFloat _ | NInt _ | NBool _ | NStr _ | NNone => true
   | NTuple _ ms => all ms
   | NBinop _ _ ln rn l r => String.eqb ln "left_" && String.eqb rn "right_" && negb (same_prior l r) && reloadable l && reloadable r
   | NUnop _ _ _ a => negb (is_prior a) && reloadable a
   | NModel _ _ _ _ attrs => has_prior n && all attrs
-  | NColl _ k attrs => Z.eqb k 0 && all attrs
+  | NColl _ k attrs => Z.eqb k (if reload_restores_item_number then count_digit_keys attrs else 0) && all attrs
   | NInst _ _ _ attrs => all attrs
-  | NSearch c _ _ => negb (String.eqb c "Drawer")
+  | NSearch c _ _ => negb (String.eqb c "Drawer") || drawer_json_readable
   end.
 
 Definition all_reloadable (l : list (string * node)) : bool := forallb (fun kv => reloadable (snd kv)) l.
@@ -48,7 +48,8 @@ Proof.
   induction n as [pid fam lo hi m s|v|z|b|s| |mid ms IH|mid c ln rn l r IHl IHr|mid c pn a IHa
                  |mid lbl cls cargs attrs IH|mid k attrs IH|c cargs ex attrs IH|c fs attrs IH] using node_ind';
     intro H; try reflexivity.
-  - destruct fam; try reflexivity. discriminate H.
+  - cbn [reloadable] in H. cbn [reload].
+    destruct (is_log_gaussian fam); [|reflexivity]. cbn [negb orb] in H. rewrite H. reflexivity.
   - cbn [reloadable] in H. rewrite reloadable_go in H.
     cbn [reload]. rewrite reload_go, (all_some_id ms IH H). reflexivity.
   - cbn [reloadable] in H. repeat (apply andb_true_iff in H; destruct H as [H ?]).
@@ -78,7 +79,8 @@ Proof.
     cbn [reload]. rewrite reload_go, (all_some_id attrs IH H2). reflexivity.
   - cbn [reloadable] in H. rewrite reloadable_go in H.
     cbn [reload]. rewrite reload_go, (all_some_id attrs IH H). reflexivity.
-  - cbn [reloadable] in H. apply negb_true_iff in H. cbn [reload]. rewrite H. reflexivity.
+  - cbn [reloadable] in H. cbn [reload].
+    destruct (String.eqb c "Drawer"); [|reflexivity]. cbn [negb orb] in H. rewrite H. reflexivity.
 Qed.
 
 Lemma roundtrip_partial (md5 : string -> string) (ps : float -> string) (s m : node) (tag : option string) :
